@@ -335,7 +335,10 @@ class Model:
                 raise ModelErr("field of non-map")
             return self.index(c, ("string", n.a[1]))
         if k == "has":
-            c = self.ev(n.a[0], scope)
+            try:
+                c = self.ev(n.a[0], scope)
+            except ModelErr:
+                raise Unspec("has() over an operand that is itself an error")
             if c[0] != "map":
                 raise ModelErr("has on non-map")
             return ("bool", any(kk == ("string", n.a[1]) for kk, _ in c[1]))
